@@ -127,3 +127,13 @@ Theorem C02_checker_accepts_model_cold_caches : forall s, ColdCache.ids_distinct
   chk_C02 s (api_tree s []) = 0.
 Proof. exact ChkModelC02.chk_C02_model_cold. Qed.
 Print Assumptions C02_checker_accepts_model_cold_caches.
+
+(* ... and with combined-map SourceMapSource leaves (inner source map, within the C09 domain) *)
+From RS Require Proofs.CombLeafTree.
+Theorem C02_positions_combined_leaves : forall st s cols,
+  CombLeafTree.rshape2 s = true -> treeA s = true -> rsmall s = true ->
+  let '(evs, gi, st') := stream st s (mkOpts cols false) in
+  reassembles evs (source s) = true /\ well_positioned (chunks_of evs) 1 0 = true /\
+  gi = advance 1 0 (source s) /\ st' = st.
+Proof. exact CombLeafTree.rshape2_stream_good. Qed.
+Print Assumptions C02_positions_combined_leaves.
